@@ -68,6 +68,33 @@ def AbsEq (db : Db) (s t : JState) : Prop :=
   (∀ a, (absAcct db s a).eqv (absAcct db t a)) ∧
   (∀ a k, tload s a k = tload t a k) ∧ s.logs = t.logs
 
+/-- well-formedness of a journaled state over its database: every balance, cached or still in the
+database, is a 256-bit word (what `U256` guarantees in the Rust; the model's words are unbounded `Nat`s) -/
+def WF (db : Db) (s : JState) : Prop := ∀ a, (absAcct db s a).balance < W
+
+/-- the delegation target designated by the code of `a`, as `load_account_delegated` reads it -/
+def delegateOf (db : Db) (s : JState) (a : Addr) : Option Addr :=
+  match loadCode db s a with
+  | some (s1, _) => (s1.state a).bind fun acc => acc.info.code.bind db.delegate
+  | none => none
+
+/-- the accounts / slots the undo of an entry dereferences are present -/
+def refsOk (s : JState) : Entry → Prop
+  | .accountWarmed a => (s.state a).isSome
+  | .accountTouched a => (s.state a).isSome
+  | .accountDestroyed a t _ _ => (s.state a).isSome ∧ (s.state t).isSome
+  | .balanceTransfer a t _ => (s.state a).isSome ∧ (s.state t).isSome
+  | .nonceChange a => (s.state a).isSome
+  | .accountCreated a => (s.state a).isSome
+  | .codeChange a => (s.state a).isSome
+  | .storageWarmed a k => ∃ acc, s.state a = some acc ∧ (acc.storage k).isSome
+  | .storageChanged a k _ => ∃ acc, s.state a = some acc ∧ (acc.storage k).isSome
+  | .transientChange _ _ _ => True
+
+/-- every entry in the journal refers to accounts / slots that are present in the state map: what makes
+`journal_revert`'s `unwrap`s safe. True of `JournaledState::new`, preserved by every operation (Proofs/JournalRefs) -/
+def JRefs (s : JState) : Prop := ∀ l, l ∈ s.journal → ∀ e, e ∈ l → refsOk s e
+
 /-! ## histories -/
 
 inductive Op
